@@ -314,11 +314,45 @@ def odd_names_case(ctx, rng):
             return
 
 
+def unknown_structure_case(ctx, rng):
+    """a table made of nothing: no records, no fields, no format (the result of a query that found nothing).  It
+    shows a placeholder; its reported format is a format like any other"""
+    ctx.evaluated()
+    kw = {}
+    if rng.random() < 0.5:
+        kw['header'] = rng.choice(["hdr", "", "a longer header than the table is wide"])
+    if rng.random() < 0.3:
+        kw['limits'] = rng.choice([(1, 1), (0, 0), None])
+    printed_first = rng.random() < 0.5
+    case = {"unknown_structure": True, "kw": kw, "printed_first": printed_first}
+    try:
+        t = PPTable([], **kw)
+        if printed_first:
+            T.render(t)
+        reported = str(t.fmt)
+        base = T.render(t)
+        rebuilt = T.render(PPTable([], fmt=reported, **kw))
+        t.fmt = reported
+        after_setter = T.render(t)
+    except Exception as err:
+        ctx.violation("table-operation-raises", {"stage": "no structure", "type": type(err).__name__,
+                                                 "msg": str(err)[:200]}, case)
+        return
+    ctx.count("tables_without_any_structure_checked")
+    if rebuilt != base:
+        ctx.violation("constructor-with-reported-format-renders-differently",
+                      {"stage": "no structure", "fmt": reported, "table": base[:200], "rebuilt": rebuilt[:200]}, case)
+    if after_setter != base:
+        ctx.violation("setter-with-reported-format-changes-rendering",
+                      {"stage": "no structure", "fmt": reported, "before": base[:200], "after": after_setter[:200]}, case)
+
+
 def run_shard(ctx):
     for i in range(ctx.cases):
         if i % 5 == 4:
             for k in range(4):
                 odd_names_case(ctx, ctx.rng(i, "odd%d" % k))
+            unknown_structure_case(ctx, ctx.rng(i, "nostruct"))
         c = gen_case(ctx.rng(i))
         judge(ctx, c, c)
         if i < 2:
@@ -327,6 +361,11 @@ def run_shard(ctx):
 
 
 def replay(ctx, case):
+    if case.get("unknown_structure"):
+        import random
+        for k in range(100):
+            unknown_structure_case(ctx, random.Random(k))
+        return
     if "odd_names" in case:
         import random
         for k in range(200):
